@@ -17,7 +17,7 @@ RULE = ("Line/Quadratic/Cubic segments of every class and paths of 2-5 of them a
 ASSUMPTIONS = ["point() is the reference curve (C03)", "tolerance 1e-7*size + 1e-9*d (the critical points come from np.roots)"]
 CONFIGS = ['scipy']
 BUDGET = {'quick': 16000, 'thorough': 300000}
-REQUIRED = ['reversed_after_queries', 'reassigned_after_queries', 'q:far', 'q:near', 'q:on', 'q:curvature_centre', 'q:beyond_end', 'q:random', 'kind:L', 'kind:Q', 'kind:C', 'path', 'interior_min',
+REQUIRED = ['size_below_1e-4', 'reversed_after_queries', 'reassigned_after_queries', 'q:far', 'q:near', 'q:on', 'q:curvature_centre', 'q:beyond_end', 'q:random', 'kind:L', 'kind:Q', 'kind:C', 'path', 'interior_min',
             'interior_max']
 
 EPS = 2.0 ** -52
@@ -34,6 +34,10 @@ def strategy(tier, config):
         else:
             specs = [draw(gen.bezier_spec())['spec']]
             what = 'seg'
+        # the same shapes at 1e-3 and 1e-6 of their size (exact scaling by a power of two): nothing in the claim depends on the unit
+        k2 = draw(st.sampled_from([0, 0, 0, 0, 10, 20]))
+        if k2:
+            specs = [[sp[0]] + [[p[0] * 2.0 ** -k2, p[1] * 2.0 ** -k2] for p in sp[1:]] for sp in specs]
         q = draw(st.sampled_from(['far', 'near', 'on', 'curvature_centre', 'beyond_end', 'control_point', 'random']))
         return {'what': what, 'segs': specs, 'q': q, 'k': draw(st.integers(0, 7)), 't': draw(gen.floats_in(0.02, 0.98)),
                 'a': draw(gen.floats_in(-1.0, 1.0)), 'b': draw(gen.floats_in(-1.0, 1.0)), 'end': draw(st.integers(0, 1))}
@@ -112,12 +116,14 @@ def check(case, ctx):
         if len({tuple(p) for p in sp[1:]}) < 2:
             ctx.discard('degenerate segment')
     size = gen.spec_size(specs)
-    if size < 1e-5 or any(gen.spec_size([sp]) < 1e-9 * size for sp in specs):
+    if size < 1e-9 or any(gen.spec_size([sp]) < 1e-9 * size for sp in specs):
         ctx.discard('segment far below the 1e-3 coordinate scale (squared distances underflow)')
     z = query_point(case, specs, size)
     if not (math.isfinite(z.real) and math.isfinite(z.imag)):
         ctx.discard('query point not finite')
     ctx.count('q:' + case['q'])
+    if size < 1e-4:
+        ctx.count('size_below_1e-4')
     pos = max(abs(X.C(p)) for s in specs for p in s[1:]) + abs(z)
     if case['what'] == 'seg':
         spec = specs[0]
